@@ -28,6 +28,12 @@ POOL = {
     'lo': ('127.0.0.1', '127.0.0.1', False, None),
     'll': ('169.254.1.1', '169.254.1.1', False, None),
     'mc': ('224.0.0.1', '224.0.0.1', False, None),
+    'mc2': ('224.0.1.1', '224.0.1.1', False, None),
+    'mc3': ('239.255.255.250', '239.255.255.250', False, None),
+    'm6': ('ff0e::1', 'ff0e::1', False, None),
+    'm62': ('ff02::1', 'ff02::1', False, None),
+    'bc': ('255.255.255.255', '255.255.255.255', False, None),
+    'rs': ('240.0.0.1', '240.0.0.1', False, None),
     'un': ('0.0.0.0', '0.0.0.0', False, None),
     'cg': ('100.64.0.1', '100.64.0.1', False, None),
     'doc': ('192.0.2.1', '192.0.2.1', False, None),
@@ -157,7 +163,8 @@ def _env(w):
 def k1_shapes(tier):
     out = []
     groups = [['g1', 'g2', 'g3', 'p1'], ['c1', 'n1', 'n2', 'lo'], ['a6', 'b6', 'c6', 'u6'], ['p2', 'p3', 'll', 'mc'],
-              ['un', 'cg', 'doc', 'l6'], ['k6', 'bad', 'lh', 'dot'], ['g1', 'a6', 'n1', 'bad']]
+              ['un', 'cg', 'doc', 'l6'], ['k6', 'bad', 'lh', 'dot'], ['g1', 'a6', 'n1', 'bad'],
+              ['mc2', 'mc3', 'm6', 'm62'], ['bc', 'rs', 'g2', 'c6']]
     for n, g in enumerate(groups):
         out.append({'peers': g, 'onion': (0, 3, 12)[n % 3], 'tor': n % 2 == 0, 'myself': n % 3 == 0})
     out.append({'peers': ['g1', 'c1'], 'onion': 60, 'tor': True})
@@ -180,8 +187,8 @@ KERNELS = [
            encodes=['electrumx/server/peers.py:PeerManager.on_peers_subscribe', '_get_recent_good_peers',
                     'electrumx/lib/peer.py:Peer.__init__', 'is_public', 'is_valid', 'is_tor', 'ip_address',
                     'bucket_for_external_interface', 'to_tuple', 'real_name'],
-           bounds='4..6 clearnet peers per scenario taken from a 24-entry labelled pool (public IPv4 in the same and '
-                  'different /16s, RFC1918, loopback, link-local, multicast, unspecified, CGNAT, documentation, global '
+           bounds='4..6 clearnet peers per scenario taken from a 30-entry labelled pool (public IPv4 in the same and '
+                  'different /16s, RFC1918, loopback, link-local, multicast (local and global-scope groups, IPv4 and IPv6), broadcast, reserved, unspecified, CGNAT, documentation, global '
                   'IPv6 in the same and different /56s, ULA, loopback/link-local IPv6, valid and invalid host names, '
                   'localhost) plus 0..60 onion peers; symbolic: each last_good and the clock (reals), each bad flag, '
                   'the shuffles (every permutation for <= 3 elements, every rotation above), own identity\'s '
